@@ -66,7 +66,7 @@ type Mismatch struct {
 
 // Result is the common result document.
 type Result struct {
-	mu sync.Mutex
+	mu          sync.Mutex
 	Evaluations int                    `json:"evaluations"`
 	Distinct    int                    `json:"distinct"`
 	Traces      int                    `json:"traces"`
